@@ -284,6 +284,33 @@ def make_general(stats):
     return test
 
 
+def make_siblings(stats):
+    """Two nearly identical expressions (one constant / parameter / leaf changed, incl. constants whose Python hashes
+    collide) differentiated one after the other in the same process: the second must get ITS derivative."""
+    from harness import mutate_model as MM
+
+    @given(st.data())
+    def test(data):
+        names = data.draw(S.name_lists(1, 2))
+        tags = ("Add", "Multiply", "Minus", "Negation", "NthPower", "Sine", "Exponential", "Divide")
+        m = data.draw(S.trees(names, depth=2, tags=tags, leaf=st.one_of(
+            st.sampled_from([-1, -2, 0, 1, 2, -3, 3, 0.5]).map(lambda v: ("Constant", v)),
+            st.sampled_from(names).map(lambda n: ("Variable", n)), st.sampled_from(names).map(lambda n: ("Variable", n)))))
+        sib = data.draw(MM.sibling(m, names))
+        vs = M.variables(m)
+        if sib is None or not vs:
+            return
+        var = data.draw(st.sampled_from(vs))
+        route = data.draw(st.sampled_from(["Partial.as_expression/late", "Partial.as_expression/early",
+                                           "Differential(early).component.as_expression"]))
+        envs = [data.draw(S.exact_points(names)) for _ in range(2)]
+        stats.count("sibling:" + sib[0])
+        check(stats, m, var, route, envs, sub="siblings")
+        if var in M.variables(sib[1]):
+            check(stats, sib[1], var, route, envs, sub="siblings")
+    return test
+
+
 def make_rational(stats):
     @given(st.data())
     def test(data):
@@ -331,7 +358,7 @@ def make_roots(stats):
 def parts(tier):
     n = 8000 if tier == "quick" else 150000
     return [hyp_part("general", make_general, int(n * 0.5)), hyp_part("rational", make_rational, int(n * 0.25)),
-            hyp_part("roots", make_roots, int(n * 0.25))]
+            hyp_part("roots", make_roots, int(n * 0.25)), hyp_part("siblings", make_siblings, int(n * 0.15))]
 
 
 def replay(case):
